@@ -10,17 +10,24 @@ COMMON_NOTE = ("Trusted: Coq 8.16.1 kernel + vm_compute; the hand-written Gallin
                "correspondence stage (model and implementation run on the same generated cases, compared inside coqc); "
                "Python->Gallina encoder; property oracle transcribed from the statement. ")
 
-# id -> (level text, level_note extra, technique, design_ref)
-CLAIMED = {
-    "C06": ("Theorems over all reply values (Coq, closed under the global context) about a Gallina model of check_for_errors / "
-            "proxy result extraction / MultiCall access; the model is checked against the real code on the exhaustive "
-            "error x envelope x result x access-path product on every run.",
-            "CPython truthiness/in/dict lookup/float() and the json round trip of the reply text are modelled, not verified; "
-            "envelope domain: 'jsonrpc' absent or <= 2.0.",
-            "Coq proof over a hand-written executable model + differential correspondence check (vm_compute) + property oracle",
-            "DESIGN.md 4/C06"),
-}
+# Each harness/props/cNN.py that is ready to be claimed defines
+#   MANIFEST_ENTRY = {"text": ..., "note": ..., "technique": ..., "design_ref": ...}
+import glob
+import importlib
+import sys
+sys.path.insert(0, HERE)
+sys.dont_write_bytecode = True
+CLAIMED = {}
+for path in sorted(glob.glob(os.path.join(HERE, "harness", "props", "c[0-9][0-9].py"))):
+    name = os.path.basename(path)[:-3]
+    mod = importlib.import_module("harness.props." + name)
+    e = getattr(mod, "MANIFEST_ENTRY", None)
+    if e:
+        CLAIMED[mod.PROP_ID] = (e["text"], e["note"], e["technique"], e["design_ref"])
 REASONS = {}
+rp = os.path.join(HERE, "tools", "not_applicable_reasons.json")
+if os.path.exists(rp):
+    REASONS = json.load(open(rp))
 
 checks = []
 for i in ids:
@@ -39,7 +46,7 @@ for i in ids:
         })
 m = {
     "version": 1,
-    "setup_cmd": "cd /verif/coq && coq_makefile -f _CoqProject -o Makefile && timeout 3000 make -j16",
+    "setup_cmd": "cd /verif/coq && sh gen_project.sh && coq_makefile -f _CoqProject -o Makefile && timeout 3000 make -j16",
     "hooks": {"guard": "JSONRPCLIB_VERIF",
               "enable": "no hooks: all instrumentation is applied from outside at run time (namespace shims, sys.settrace, custom transport objects)",
               "baseline_off_cmd": "cd /repo && /venv/bin/python -m pytest -ra -q -p no:cacheprovider --timeout=900 --continue-on-collection-errors",
